@@ -126,8 +126,47 @@ function allCases(thorough) {
   return out
 }
 
+/** file names that every ordinary JavaScript object also answers to: a reference to such a name links to the file registered under
+ *  it, and to nothing when no file is registered under it - exactly like a reference to the name `zz` */
+const OBJECT_NAMES = ['constructor', 'toString', 'valueOf', 'hasOwnProperty', '__proto__', 'call', 'isPrototypeOf', '__defineGetter__']
+function objectNameCases() {
+  const out = []
+  for (const kind of ['include', 'import', 'wxs']) for (const name of [...OBJECT_NAMES, 'zz']) for (const registered of [true, false]) for (const protoFile of [false, true]) {
+    if (protoFile && (registered || name === '__proto__')) continue
+    const files = []
+    const scripts = []
+    if (kind === 'include') { files.push(['m', `<include src="${name}"/>`]); if (registered) files.push([name, 'TARGET']) }
+    else if (kind === 'import') { files.push(['m', `<import src="${name}"/><template is="t"/>`]); if (registered) files.push([name, '<template name="t">TARGET</template>']) }
+    else { files.push(['m', `<wxs module="m" src="${name}"/>{{m.k}}`]); if (registered) scripts.push([name, 'exports.k = "TARGET"']) }
+    // (an unrelated file registered under `__proto__` must not change what the other names link to)
+    if (protoFile) { if (kind === 'wxs') scripts.push(['__proto__', 'exports.k = "P"']); else files.push(['__proto__', '<template name="t">P</template>']) }
+    out.push({ kind, name, registered, protoFile, files, scripts })
+  }
+  return out
+}
+function runObjectNames(rep) {
+  const cases = objectNameCases()
+  const res = C.compileBatch(cases.map((c, i) => ({ id: i, files: c.files, scripts: c.scripts, want: ['groups'] })), 1)
+  const outcome = cases.map((c, i) => {
+    if (res[i].panic) return 'panic'
+    try { return T.showTree(T.normActual(RT.flatten(RT.render(RT.loadGroups(res[i].outputs.groups.ok, false), 'm', {}).nodes, true))) } catch (e) { return 'throws' }
+  })
+  cases.forEach((c, i) => {
+    rep.states += 1
+    rep.transitions += 1
+    rep.evaluations += 1
+    const twin = cases.findIndex((d) => d.kind === c.kind && d.name === 'zz' && d.registered === c.registered && d.protoFile === c.protoFile)
+    rep.outcome(['object-name', c.kind, c.registered, outcome[i]])
+    rep.nontrivialCase(`object-name ${c.kind} ${c.name} ${c.registered} ${c.protoFile}`)
+    if (outcome[i] !== outcome[twin]) {
+      rep.violation(`C13|name-of-an-object-member|${c.kind}|${c.registered ? 'registered' : 'not-registered'}`, `${c.kind} src="${c.name}" in "m" with ${c.registered ? 'the target registered' : 'no file registered under that path'}${c.protoFile ? ' and an unrelated file registered as "__proto__"' : ''}: the bundle ${outcome[i] === 'throws' ? 'throws' : 'renders ' + outcome[i]}; the same reference to the name "zz" ${outcome[twin] === 'throws' ? 'throws' : 'renders ' + outcome[twin]}`, { engine: 'c13', kind: 'object-name', refKind: c.kind, name: c.name, registered: c.registered, protoFile: c.protoFile })
+    }
+  })
+}
+
 function runShard(info, thorough) {
   const rep = new C.Report()
+  if (info.shard === 0) runObjectNames(rep)
   const all = allCases(thorough)
   const mine = all.filter((_, i) => i % info.of === info.shard)
   const CH = 300
@@ -227,6 +266,12 @@ function runShard(info, thorough) {
 }
 
 function replayOne(rec) {
+  if (rec.kind === 'object-name') {
+    const rep = new C.Report()
+    runObjectNames(rep)
+    const hit = [...rep.violations.values()].filter((v) => v.replay && v.replay.refKind === rec.refKind && v.replay.registered === rec.registered)
+    return { deterministic: true, failure: hit.length ? hit.map((v) => v.what) : null }
+  }
   if (rec.kind === 'precedence') {
     const c = precedenceCases().find((x) => x.rel === rec.rel)
     const r = C.compileBatch([{ id: 0, files: c.files, scripts: [], want: ['groups'] }], 1)[0]
